@@ -25,7 +25,7 @@ pub fn property() -> Property {
             },
             Part {
                 name: "inprocess_sessions",
-                quick: 320,
+                quick: 480,
                 thorough: 20_000,
                 single_shard: false, supplementary: false,
                 run: |cfg| run_part(cfg, session_strategy(), |r| build(r, false), check_session),
@@ -347,7 +347,7 @@ pub fn check_session(case: &TextSessionCase, ctx: &mut Ctx) -> Result<(), String
     let mut nt = false;
     let mut normal_search_done = false;
     let wait_err = |w: Wait, trace: &Vec<String>| match w {
-        Wait::ThreadDied(why) => format!("engine stopped answering: {why}; session {trace:?}"),
+        Wait::ThreadDied(why, _) => format!("engine stopped answering: {why}; session {trace:?}"),
         _ => format!("{HARNESS_PREFIX} watchdog: engine silent for 90 s; session {trace:?}"),
     };
     for step in &case.steps {
@@ -407,7 +407,15 @@ pub fn check_session(case: &TextSessionCase, ctx: &mut Ctx) -> Result<(), String
                     ch.line("stop")?;
                     nt = true;
                 }
-                let mut lines = ch.read_until("bestmove").map_err(|w| wait_err(w, &trace))?;
+                let mut lines = match ch.read_until("bestmove") {
+                    Ok(l) => l,
+                    Err(Wait::ThreadDied(_, d)) if crate::engsess::is_k1_depth_form(crate::props::c07::root_ply(&root), d) => {
+                        ctx.known.insert(crate::engsess::K1_DEPTH_FORM.to_string());
+                        ctx.class("k1_depth_form_met");
+                        return Ok(());
+                    }
+                    Err(w) => return Err(wait_err(w, &trace)),
+                };
                 if !banner_skipped && !lines.is_empty() {
                     lines.remove(0);
                     banner_skipped = true;
